@@ -285,6 +285,9 @@ def check_property(prop, tier="quick", seed=0, only=None, verbose=False, record_
     if C.LOAD_ERRORS:
         for k, v in C.LOAD_ERRORS.items():
             print("CONTRACT-FILE-ERROR %s: %s" % (k, v))
+        # a contract file that does not load may hold contracts of this property: never report 'held' on a partial registry
+        print("CHECKER-ERROR the contract registry is incomplete")
+        return 3
     if not cts:
         print("no contract serves", prop)
         return 3
